@@ -389,9 +389,16 @@ CLAIMED = {
                 "are unlinked at close exactly under the delete-on-close hint; ncbbio_log_put_var and _put_varn maintain "
                 "the same bookkeeping and the largest-entry size tracks the amount the data log grows by (the flush buffer "
                 "is sized from it); for bounded (channels, offset, count) the shared-log pread/pwrite move every logical "
-                "byte once at its mapped offset and agree with each other. Equality of the final file with the "
-                "default driver's and read-your-writes for all programs are NOT decided.",
-        "note": "R8.shared is a bounded slice evaluation. Observed, outside the property: in ncbbio_log_flush_core the per-request "
+                "byte once at its mapped offset and agree with each other; the gathering part of a flush round, evaluated on "
+                "small logs with reads and seeks acting on a modelled file position, fills the flush buffer with exactly the "
+                "data of the valid entries of its batch (cancelled entries skipped after what precedes them was read); a "
+                "schema-derived field of the driver object that inquiries consult (recdimid) is derived from the file at open; "
+                "no ordering comparison sets an unsigned value against a negative constant (driver, library and tools); a "
+                "pointer parameter the driver tests against NULL is not used unprotected where the NULL side of such a test can "
+                "reach. Equality of the final file with the default driver's and read-your-writes for all programs are NOT "
+                "decided.",
+        "note": "R8.shared and R8.flushbatch are bounded evaluations. Found and fixed: F-C12-1..3 (replayed in a tree configured "
+                "with --enable-burst-buffering). Observed, outside the property: in ncbbio_log_flush_core the per-request "
                 "status loop resets j to 0 in every iteration, so every put request of a batch is given stats[0].",
         "design_ref": "DESIGN.md section 3 / C12",
     },
